@@ -9,7 +9,7 @@ from .. import report as R
 from ..report import RuleSpec
 from .. import codec as C
 from ..paths import paths_through, first_index, last_index
-from .common import CTL, fn_loc, short, unparse, returns_of, concrete_classes
+from .common import CTL, fn_loc, short, unparse, returns_of, concrete_classes, inline_locals
 
 ST = MAP_STACKER
 LOCIX = ST + ".StackerLocIndexer"
@@ -135,6 +135,9 @@ def rule_r1(ctx) -> List[R.Inst]:
     why = "concatenation not recognised"
     if len(stk) == 1:
         cc = [n for n in ast.walk(stk[0].value) if isinstance(n, ast.Call) and unparse(n.func).endswith("concat")]
+        if not cc:
+            # the frame named first: frame = pd.concat([..]); self._stacked = frame.reset_index()
+            cc = [n for n in ast.walk(inline_locals(fn.node, stk[0].value)) if isinstance(n, ast.Call) and unparse(n.func).endswith("concat")]
         alts = SE.describe(cc[0].args[0], env.at.get(id(stk[0]), env.final)) if len(cc) == 1 and cc[0].args else None
         if alts:
             if all(a.base in src_names and not a.filters and a.elt in ("_.df", "_._df") for a in alts):
